@@ -33,9 +33,11 @@ def run(ck):
         for k in range(0, len(sigs), B):
             batches.append({"id": len(batches), "batch": sigs[k:k + B], "seed": ck.seed * 1000003 + len(batches), "vectors": 16 if quick else 100})
     res = vlib.run_cases(ck, "stdlibsig", batches, nproc=14, timeout=3000)
+    res = vlib.retry_hangs(ck, "stdlibsig", batches, res, timeout=3000)
     ebatches = [{"id": i, "batch": enum_cases[k:k + 400]} for i, k in enumerate(range(0, len(enum_cases), 400))]
     ebatches += [{"id": len(ebatches) + i, "maps": map_cases[k:k + 200]} for i, k in enumerate(range(0, len(map_cases), 200))]
     eres = vlib.run_cases(ck, "enumspec", ebatches, nproc=14, timeout=3000)
+    eres = vlib.retry_hangs(ck, "enumspec", ebatches, eres, timeout=3000)
     stats, keycount, seen = {}, {}, set()
     for group, rr in ((batches, res), (ebatches, eres)):
         for b in group:
